@@ -16,6 +16,14 @@ impl FileWriter {
         })
     }
 
+    /// Write a generated file; if the write fails, do not leave a truncated file behind
+    /// (it would pass for a generated one on the next run)
+    pub fn write_or_remove(path: &Path, content: &str) -> std::io::Result<()> {
+        fs::write(path, content).inspect_err(|_| {
+            let _ = fs::remove_file(path);
+        })
+    }
+
     /// Write a TypeScript file with the given content
     pub fn write_typescript_file(
         &mut self,
@@ -23,7 +31,7 @@ impl FileWriter {
         content: &str,
     ) -> Result<(), Box<dyn std::error::Error>> {
         let file_path = format!("{}/{}", self.output_path, filename);
-        fs::write(&file_path, content)?;
+        Self::write_or_remove(Path::new(&file_path), content)?;
         self.generated_files.push(filename.to_string());
         Ok(())
     }
